@@ -194,6 +194,12 @@ func init() {
 			effects: map[string]string{"strconv.ParseInt": "", "getPathQuery": "", "codec.HmacBase64": ""},
 			skip:    map[string]bool{"time.Now().Unix": true, "int64": true, "strings.Join": true, "logc.Infof": true}, retVals: true})
 
+		// ---- round 5e: where do the bytes behind r.Body live after computeBodySignature
+		c18BodyOrigin(s, e, sec, "computeBodySignature", "bodyAssignments", "securityPackageVars")
+		c18LocalDecls(s, e, "core/iox/read.go", "DupReadCloser", "dupReadCloserLocals")
+		c18BodyOrigin(s, e, cry, "decryptBody", "decryptBodyAssignments", "cryptionPackageVars")
+		c18LocalDeclsDeep(s, e, cry, "decryptBody", "decryptBodyLocals")
+
 		// ---- round 5c: ParseToken's retry structure as a TYPED call list (symbolic execution: which secret each call gets)
 		c18ParseTokenCalls(s, e, tokp, "TokenParser.ParseToken", "parseTokenCalls")
 
@@ -1277,4 +1283,85 @@ func c18ParseTokenCalls(s *source, e *emitter, rel, fn, lean string) {
 	}
 	e.printf("/-- `%s` (%s) as a typed call list: (kind, the secret the call is given), for every outcome of the conditions; `err s` = doParseToken with secret `s` returned an error -/\n", fn, rel)
 	e.printf("def %s (secret prev : String) (hasPrev currentLeads : Bool) (err : String → Bool) : List (String × String) :=\n  %s\n\n", lean, expr)
+}
+
+// ---- round 5e ----
+
+// c18BodyOrigin: every statement of fn that assigns r.Body (source text, in order), and every package-level variable of the
+// file with the callee (or literal) that initialises it: a pool / buffer shared between requests would show up in both.
+func c18BodyOrigin(s *source, e *emitter, rel, fn, leanAssign, leanVars string) {
+	fd := s.findFunc(rel, fn)
+	var assigns []string
+	if fd == nil {
+		e.errors = append(e.errors, "function "+fn+" not found in "+rel)
+	} else {
+		ast.Inspect(fd.Body, func(n ast.Node) bool {
+			if as, ok := n.(*ast.AssignStmt); ok {
+				for _, l := range as.Lhs {
+					if s.src(l) == "r.Body" {
+						assigns = append(assigns, s.src(as))
+						break
+					}
+				}
+			}
+			return true
+		})
+	}
+	e.stringList(leanAssign, "the statements of `"+fn+"` ("+rel+") that assign r.Body", assigns)
+	var vars []string
+	if f := s.file(rel); f != nil {
+		for _, d := range f.Decls {
+			gd, ok := d.(*ast.GenDecl)
+			if !ok || gd.Tok != token.VAR {
+				continue
+			}
+			for _, sp := range gd.Specs {
+				vs := sp.(*ast.ValueSpec)
+				for i, n := range vs.Names {
+					init := "-"
+					if i < len(vs.Values) {
+						init = s.src(vs.Values[i])
+						if c, ok := vs.Values[i].(*ast.CallExpr); ok {
+							init = s.src(c.Fun)
+						}
+					}
+					vars = append(vars, n.Name+" = "+init)
+				}
+			}
+		}
+	}
+	e.stringList(leanVars, "the package-level variables of "+rel+" and what initialises them", vars)
+}
+
+// c18LocalDecls: the `var` declarations inside fn (a buffer declared there is fresh in every call).
+func c18LocalDecls(s *source, e *emitter, rel, fn, lean string) {
+	fd := s.findFunc(rel, fn)
+	var items []string
+	if fd == nil {
+		e.errors = append(e.errors, "function "+fn+" not found in "+rel)
+	} else {
+		for _, st := range fd.Body.List {
+			if ds, ok := st.(*ast.DeclStmt); ok {
+				items = append(items, s.src(ds))
+			}
+		}
+	}
+	e.stringList(lean, "the local declarations of `"+fn+"` ("+rel+")", items)
+}
+
+// c18LocalDeclsDeep: every `var` declaration anywhere inside fn.
+func c18LocalDeclsDeep(s *source, e *emitter, rel, fn, lean string) {
+	fd := s.findFunc(rel, fn)
+	var items []string
+	if fd == nil {
+		e.errors = append(e.errors, "function "+fn+" not found in "+rel)
+	} else {
+		ast.Inspect(fd.Body, func(n ast.Node) bool {
+			if ds, ok := n.(*ast.DeclStmt); ok {
+				items = append(items, s.src(ds))
+			}
+			return true
+		})
+	}
+	e.stringList(lean, "the local declarations of `"+fn+"` ("+rel+")", items)
 }
